@@ -74,14 +74,15 @@ pub fn wire(toks: &[&str]) -> Option<String> {
             let c = parse_wire_cmd(&mut t)?; if !t.done() { return None; }
             let b = bincode::serialize(&c).ok()?;
             let back: Result<Command, _> = bincode::deserialize(&b);
-            let rt = back.ok().and_then(|x| bincode::serialize(&x).ok()).map(|b2| b2 == b).unwrap_or(false);
+            // intact: the decoded value is the value that was sent (Debug renders every field), and it re-encodes to the same bytes
+            let rt = back.ok().and_then(|x| if format!("{:?}", x) == format!("{:?}", c) { bincode::serialize(&x).ok() } else { None }).map(|b2| b2 == b).unwrap_or(false);
             Some(summarize(&b, bincode::serialized_size(&c).ok()?, rt))
         }
         "R" => {
             let c = parse_wire_resp(&mut t)?; if !t.done() { return None; }
             let b = bincode::serialize(&c).ok()?;
             let back: Result<Response, _> = bincode::deserialize(&b);
-            let rt = back.ok().and_then(|x| bincode::serialize(&x).ok()).map(|b2| b2 == b).unwrap_or(false);
+            let rt = back.ok().and_then(|x| if format!("{:?}", x) == format!("{:?}", c) { bincode::serialize(&x).ok() } else { None }).map(|b2| b2 == b).unwrap_or(false);
             Some(summarize(&b, bincode::serialized_size(&c).ok()?, rt))
         }
         _ => None,
